@@ -9,11 +9,14 @@ use std::sync::Arc;
 struct Failing {
     budget: Arc<AtomicUsize>, // operations that still succeed
 }
+/// which kind of error the failing terminal reports (0 Other, 1 BrokenPipe, 2 WouldBlock, 3 Interrupted)
+static KIND: AtomicUsize = AtomicUsize::new(0);
 impl Failing {
     fn op(&self) -> io::Result<()> {
         let b = self.budget.load(Ordering::SeqCst);
         if b == 0 {
-            return Err(io::Error::new(io::ErrorKind::Other, "terminal gone"));
+            let k = match KIND.load(Ordering::SeqCst) { 1 => io::ErrorKind::BrokenPipe, 2 => io::ErrorKind::WouldBlock, 3 => io::ErrorKind::Interrupted, _ => io::ErrorKind::Other };
+            return Err(io::Error::new(k, "terminal gone"));
         }
         self.budget.store(b - 1, Ordering::SeqCst);
         Ok(())
@@ -126,8 +129,10 @@ pub fn io_fail_multi(_args: &[String]) -> String {
 /// every bar are what they are on a working terminal.
 pub fn io_fail_state(_args: &[String]) -> String {
     std::panic::set_hook(Box::new(|_| {}));
-    // (a) errors are reported
-    for history in 0..3 {
+    // (a) errors are reported, whatever kind of error the terminal gives
+    for history in 0..12 {
+        KIND.store(history / 3, Ordering::SeqCst);
+        let history = history % 3;
         let t = Failing { budget: Arc::new(AtomicUsize::new(1_000_000)) };
         let budget = t.budget.clone();
         let mp = MultiProgress::with_draw_target(ProgressDrawTarget::term_like(Box::new(t)));
@@ -150,6 +155,7 @@ pub fn io_fail_state(_args: &[String]) -> String {
             }
         }
     }
+    KIND.store(0, Ordering::SeqCst);
     // (b) logical state is what it is without the failure
     let ops: Vec<(&str, Box<dyn Fn(&ProgressBar)>)> = vec![
         ("inc(2)", Box::new(|p| p.inc(2))), ("set_message(m)", Box::new(|p| p.set_message("m"))), ("set_length(20)", Box::new(|p| p.set_length(20))),
@@ -242,6 +248,19 @@ pub fn io_fail_state(_args: &[String]) -> String {
         budget.store(0, Ordering::SeqCst);
         pb.enable_steady_tick(std::time::Duration::from_millis(5));
         std::thread::sleep(std::time::Duration::from_millis(120));
+        // the terminal recovers while the ticker is still installed: frames arrive again (bounded wait, lower bound only)
+        budget.store(1_000_000, Ordering::SeqCst);
+        let before = 1_000_000 - budget.load(Ordering::SeqCst);
+        let mut painted = false;
+        for _ in 0..400 {
+            std::thread::sleep(std::time::Duration::from_millis(5));
+            if 1_000_000 - budget.load(Ordering::SeqCst) > before { painted = true; break; }
+        }
+        if !painted {
+            return "{\"found\": true, \"clause\": \"C18 after a failed frame the bar keeps working: the steady ticker paints again once the terminal works\", \"input\": {\"history\": [\"enable_steady_tick(5 ms)\", \"terminal fails for 120 ms\", \"terminal works again\", \"2 s without a single terminal operation\"]}, \"rerun\": \"replay io_fail_state\"}".to_string();
+        }
+        budget.store(0, Ordering::SeqCst);
+        std::thread::sleep(std::time::Duration::from_millis(30));
         pb.disable_steady_tick();
         budget.store(1_000_000, Ordering::SeqCst);
         let got = (pb.position(), pb.length(), pb.message(), pb.is_finished(), pb.is_hidden());
